@@ -213,6 +213,23 @@ PROPS = {
                                      'PEAK chunk layout (WAV/AIFF: version, timestamp, {float32 value, uint32 position} per channel; CAF: edit count, {float32, uint64}) is coded in the harness'],
         floor={'quick': 300, 'thorough': 1000},
     ),
+    'C20': dict(
+        runs=[dict(src='c20_codec_kernels.c'), dict(src='c20_codec_kernels.c', variant='fast', thorough_only=True)],
+        level='exploration',
+        rule=('(1) G.711 exhaustive: 256 codes x 4 read types and 65536 inputs x 4 write types for mu-law and A-law vs an arithmetic reference written from '
+              'ITU-T G.711; (2) IEEE serialisers via SFC_TEST_IEEE_FLOAT_REPLACE, both byte orders: floats - quick 2^24 patterns (every sign/exponent, stride 251 '
+              'through the mantissa plus 65536 consecutive patterns at the top of each), thorough ALL 2^32 patterns as 65536 blocks; doubles - sign x every '
+              'exponent x 14 boundary + 18 random mantissas (x4 quick, x40 thorough); judged on finite normal values; (3) LE/BE twin files of 65536 values for '
+              '16/24/32-bit PCM, float, double; (4) IMA (WAV, W64, AIFF layouts) and MS ADPCM: files with 6 blocks (last one partial in half of the cases) whose block '
+              'bytes are overwritten with 6 random/adversarial patterns and extreme header fields, 1-2 channels, every block size the writer uses (256..2048), decoded by '
+              'sf_readf_short and compared with reference decoders. case = one block of inputs; distinct = hash(case parameters)'),
+        assumptions=COMMON_ASSUME + ['float/double entries of the G.711 encoders round to the codec input grid: exact equality on the grid, one grid step of slack off it',
+                                     'mu-law has two zero codes: identity of encode(decode(c)) is asserted up to codes that decode to the same value',
+                                     'ADPCM conformance is asserted only for blocks whose header fields are inside the definitions (IMA step index <= 88, MS bPredictor <= 6); other blocks are decoded for memory safety only; MS iDelta follows the 16-bit arithmetic of the Microsoft description',
+                                     'OKI/VOX ADPCM is excluded by the property'],
+        floor={'quick': 300, 'thorough': 10000},
+        timeout={'quick': 3000, 'thorough': 25000},
+    ),
 }
 
 NOT_APPLICABLE = {}
